@@ -1,10 +1,12 @@
 (* Compiled only when EqOrdCasesCheck.v fails: locate the differing cases.
-   Output: per domain (in the order of `doms`) the failing pairs
+   Output (the descriptor / policy / hash parts are lists over the key types: DefiniteDescriptorKey, dpk, str): per domain (in the order of `doms`) the failing pairs
    (i, j, impl (==,cmp,hash), model, structurally equal),
    the ids whose recorded hash stream differs from hash_raw, pairs whose dump/term identity is off,
    the failing descriptor pairs (i, j, impl (==,cmp), model),
    the failing descriptor pairs under a history (i, j, left warmed, right warmed),
-   and per policy domain (concrete, semantic) the failing pairs (i, j, impl (==,cmp), model). *)
-From Verif Require Import EqOrdRun EqOrdDescRun EqOrdPolRun EqOrdCasesGen.
+   and per policy domain (concrete, semantic) the failing pairs (i, j, impl (==,cmp), model),
+   and hashdom_diag (ids of descriptor / warmed-descriptor streams, descriptor hash pairs, policy streams, policy hash pairs
+   that differ from desc_feed / cpol_feed). *)
+From Verif Require Import EqOrdRun EqOrdDescRun EqOrdPolRun EqOrdHashModel EqOrdCasesGen.
 
-Eval vm_compute in (map dom_diag doms, map dom_stream_diag doms, map dom_spec_diag doms, deqdom_diag ddom_eq, deqdom_wdiag ddom_eq, map poldom_diag poldoms).
+Eval vm_compute in (map dom_diag doms, map dom_stream_diag doms, map dom_spec_diag doms, map deqdom_diag ddoms, map deqdom_wdiag ddoms, map poldom_diag poldoms, map hashdom_diag hashdoms).
